@@ -228,6 +228,5 @@ StartResultExact == mv.startRes = "ok" => \A s \in Svc : mv.svc[s].state # "New"
 
 \* Liveness
 EventuallyStopped == (\A s \in Svc : mv.svc[s].state \in Terminal) ~> (mv.mstate = "stopped")
-EventuallyHealthy == (\A s \in Svc : mv.svc[s].state = "Running") ~> (mv.wasHealthy)
 StopAllLeadsToStopped == (mv.stopPc = NS + 1) ~> (mv.mstate = "stopped")
 =============================================================================
